@@ -822,7 +822,7 @@ def evaluate(chk, cases):
         do_enum = n <= ENUM_LIMIT
         inst["_n"] = n
         inst["_enum"] = do_enum
-        parts = ["o_bool (inst_wf i)", "o_lp (gen here i)",
+        parts = ["o_bool (inst_wf i && Qleb 0 (i_phase i))", "o_lp (gen here i)",
                  "o_optimum here i" if do_enum else "OL [OZ (-1)]",
                  f"o_eval {variant} here i {coq_asg(raw)}" if raw is not None else "OL []",
                  f"o_point here i {coq_asg(raw)}" if raw is not None else "OL []",
@@ -860,7 +860,7 @@ def judge(chk, case, ci, c, inst, rename, problems, raw, rep, v):
     desc_base = {"stream": stream, "gene": case["gene"]}
     # ---- side conditions of the instance
     if not wf:
-        chk.mismatch("instance-side-conditions", case, "inst_wf = false", short_inst(inst))
+        chk.mismatch("instance-side-conditions", case, "inst_wf = false or minor_phase < 0 (hypotheses of C04_minor_optimal)", short_inst(inst))
     if not inst["plain_keys"]:
         problems.append("major solution keys carry minor/added/missing")
     # ---- (a) structural tie
